@@ -20,6 +20,8 @@ type HevcCache struct {
 	vps      *rtp.Packet // 视频参数集包
 	sps      *rtp.Packet // 序列参数集包
 	pps      *rtp.Packet // 图像参数集包
+	hasKey   bool        // a key picture has been seen
+	keyTS    uint32      // RTP timestamp of the most recent key picture
 }
 
 // NewHevcCache 创建 HEVC 缓存
@@ -58,6 +60,16 @@ func (cache *HevcCache) CachePack(pack Pack) bool {
 		return false
 	}
 
+	// 一个关键帧可能由多个 slice/分包组成（同一 RTP 时间戳）：
+	// only the first packet of a key picture starts a new GOP
+	if islice {
+		if cache.hasKey && cache.keyTS == rtppack.Timestamp {
+			islice = false
+		} else {
+			cache.hasKey, cache.keyTS = true, rtppack.Timestamp
+		}
+	}
+
 	if cache.cacheGop { // 需要缓存 GOP
 		if islice { // 关键帧
 			cache.gop.Reset()
@@ -77,6 +89,7 @@ func (cache *HevcCache) Reset() {
 	cache.vps = nil
 	cache.sps = nil
 	cache.pps = nil
+	cache.hasKey = false
 	cache.gop.Reset()
 }
 
